@@ -23,10 +23,15 @@ Fixpoint count_contained (f : bloom) (l : list Z) (acc : Z) : Z :=
 
 (* an operation addressed to a slot that holds no filter (e.g. after a rejected image) is a
    harness-level no-op observed as EMPTY on both sides *)
+(* ops 20 / 21 / 22 are insert / contains / contains_and_insert of an item of another type (a = slot :: kind ::
+   h0 :: h1 :: payload): the model consumes the digests, which sit at the same argument positions as in ops 1 / 2 / 3 *)
+Definition norm_code (code : Z) : Z :=
+  match code with 20 => 1 | 21 => 2 | 22 => 3 | c => c end.
+
 Definition step (st : slots) (o : zop) : slots * list Z :=
   let '(code, a) := o in
   let slot := nth 0 a 0 in
-  match code with
+  match norm_code code with
   | 0 => match bf_with_size (zN (nth 1 a 0)) (zN (nth 2 a 0)) (zN (nth 3 a 0)) with
          | Ok f => (put_slot st slot f, [])
          | _ => (st, PANIC) end
@@ -213,7 +218,7 @@ Fixpoint prop_from (chk : sp -> list Z -> bool) (strict : bool) (st : ospec) (op
   | (code, a) :: r, ob :: obr =>
       let slot := nth 0 a 0 in
       if list_eqb Z.eqb ob PANIC then true else
-      match code with
+      match norm_code code with
       | 0 => let words := (nth 1 a 0 + 63) / 64 in
              prop_from chk strict (op_ st slot (Some (mkSp (nth 2 a 0) (nth 3 a 0) (repeat false (Z.to_nat (64 * words)))))) r obr
       | 1 => match og st slot with
